@@ -21,7 +21,7 @@ import (
 	"golang.org/x/tools/go/packages"
 )
 
-const Version = "instr-v4"
+const Version = "instr-v5"
 
 const modPath = "github.com/robfig/soy"
 
@@ -33,6 +33,7 @@ type Report struct {
 	MapRanges    []string `json:"map_range_sites"`
 	ChanOps      []string `json:"chan_op_sites"`
 	GoStmts      []string `json:"go_sites"`
+	SyncImports  []string `json:"sync_imports_shimmed"`
 	Unowned      []string `json:"unowned_sites"`
 	PackageVars  int      `json:"package_vars"`
 	UnboundProbe bool     `json:"unbound_probe"`
@@ -131,6 +132,23 @@ func (r *rewriter) isMap(e ast.Expr) bool {
 }
 
 func (r *rewriter) rewriteFile(f *ast.File) {
+	// package sync and sync/atomic are replaced by shims whose operations are scheduling points.
+	for _, im := range f.Imports {
+		shim, name := "", ""
+		switch im.Path.Value {
+		case `"sync"`:
+			shim, name = `"verif/vrt/vsync"`, "sync"
+		case `"sync/atomic"`:
+			shim, name = `"verif/vrt/vatomic"`, "atomic"
+		default:
+			continue
+		}
+		r.rep.SyncImports = append(r.rep.SyncImports, r.site(im.Pos())+" "+im.Path.Value)
+		im.Path.Value = shim
+		if im.Name == nil {
+			im.Name = ast.NewIdent(name)
+		}
+	}
 	// pass 1: structural replacements (post-order so children are done first).
 	skip := map[ast.Node]bool{}
 	astutil.Apply(f, func(c *astutil.Cursor) bool {
